@@ -154,8 +154,9 @@ theorem probe_independent_fails_without_known_pool_size :
     probeDraws true ⟨true, none, none⟩ none true = 0 ∧ probeDraws true ⟨false, none, none⟩ none true = 10 := by decide
 
 /-- …and the cache matters: a `Model` instance that has already been through a run (`_vectorised_likelihood` cached)
-skips the probe, so a second same-seed run that reuses the instance consumes ten prior points fewer than the first
-(KNOWN FINDING: reusing the model object makes the second run differ). -/
+skips the probe, so a second same-seed run that reuses the instance consumes ten prior points fewer than the first.
+(Outside the property's domain — it compares equal model definitions, i.e. fresh instances; this is why every run of
+the check builds a fresh `Model`.  Recorded as an observation only.) -/
 theorem probe_independent_fails_without_fresh_model :
     probeDraws true ⟨false, none, none⟩ (some true) true = 0 ∧ probeDraws true ⟨false, none, none⟩ none true = 10 := by decide
 
